@@ -4,6 +4,7 @@ package main
 // building go/ssa, indexing functions, source lines, call graph and modification sets.
 
 import (
+	"crypto/sha1"
 	"fmt"
 	"go/ast"
 	"go/token"
@@ -11,6 +12,7 @@ import (
 	"os"
 	"sort"
 	"strings"
+	"sync"
 
 	"golang.org/x/tools/go/packages"
 	"golang.org/x/tools/go/ssa"
@@ -32,6 +34,9 @@ type Program struct {
 	Impl      map[string][]*ssa.Function // interface method short name -> repo implementations
 	TypeSpecs map[string]*TypeSpec       // by short type name: guarded_by etc.
 	RepoDir   string
+	mu        sync.Mutex
+	srcMu     sync.Mutex
+	symIDs    map[string]int64
 }
 
 func shortName(s string) string {
@@ -139,6 +144,8 @@ func (p *Program) srcLine(pos token.Pos) string {
 		return ""
 	}
 	ps := p.Fset.Position(pos)
+	p.srcMu.Lock()
+	defer p.srcMu.Unlock()
 	lines, ok := p.srcLines[ps.Filename]
 	if !ok {
 		b, err := os.ReadFile(ps.Filename)
@@ -346,6 +353,12 @@ func (p *Program) storeTargets(addr ssa.Value, out map[string]string) {
 
 // ModSet computes (transitively, type-based) the heaps a function may write.
 func (p *Program) ModSet(f *ssa.Function) map[string]string {
+	p.mu.Lock()
+	defer p.mu.Unlock()
+	return p.modSet(f)
+}
+
+func (p *Program) modSet(f *ssa.Function) map[string]string {
 	if m, ok := p.modCache[f]; ok {
 		return m
 	}
@@ -382,12 +395,12 @@ func (p *Program) ModSet(f *ssa.Function) map[string]string {
 					}()
 				}
 			case ssa.CallInstruction:
-				p.callMods(x.Common(), out)
+				p.callMods0(x.Common(), out)
 			}
 		}
 	}
 	for _, an := range f.AnonFuncs {
-		for k, v := range p.ModSet(an) {
+		for k, v := range p.modSet(an) {
 			out[k] = v
 		}
 	}
@@ -396,6 +409,12 @@ func (p *Program) ModSet(f *ssa.Function) map[string]string {
 }
 
 func (p *Program) callMods(c *ssa.CallCommon, out map[string]string) {
+	p.mu.Lock()
+	defer p.mu.Unlock()
+	p.callMods0(c, out)
+}
+
+func (p *Program) callMods0(c *ssa.CallCommon, out map[string]string) {
 	if b, ok := c.Value.(*ssa.Builtin); ok {
 		switch b.Name() {
 		case "copy", "append":
@@ -441,7 +460,7 @@ func (p *Program) callMods(c *ssa.CallCommon, out map[string]string) {
 			continue
 		}
 		if inRepo(f) {
-			for k, v := range p.ModSet(f) {
+			for k, v := range p.modSet(f) {
 				out[k] = v
 			}
 		} else {
@@ -528,3 +547,35 @@ func (p *Program) externalModsArgs(args []ssa.Value, idxs []int, out map[string]
 
 // funcDecl finds the AST declaration of a function (for loop ordinals and source text).
 func (p *Program) funcSyntax(f *ssa.Function) ast.Node { return f.Syntax() }
+
+// symbolID resolves tid.<mangled type> / fid.<mangled function> to the engine's identifiers.
+func (p *Program) symbolID(tok string) int64 {
+	p.mu.Lock()
+	defer p.mu.Unlock()
+	if p.symIDs == nil {
+		p.symIDs = map[string]int64{}
+		for _, pk := range p.SSA.AllPackages() {
+			for _, m := range pk.Members {
+				switch x := m.(type) {
+				case *ssa.Type:
+					t := x.Type()
+					p.symIDs["tid."+mangle(typeKey(t))] = typeID(t)
+					p.symIDs["tid.ptr."+mangle(typeKey(t))] = typeID(types.NewPointer(t))
+				case *ssa.Function:
+					p.symIDs["fid."+mangle(fnName(x))] = fnID(x)
+				}
+			}
+		}
+	}
+	if v, ok := p.symIDs[tok]; ok {
+		return v
+	}
+	// unknown symbol: a distinct, stable, otherwise unused identifier
+	h := sha1.Sum([]byte(tok))
+	return (int64(h[0])<<24|int64(h[1])<<16|int64(h[2])<<8|int64(h[3]))&0x3fffffff + 0x40000000
+}
+
+func fnID(f *ssa.Function) int64 {
+	h := sha1.Sum([]byte("fn:" + fnName(f)))
+	return (int64(h[0])<<24|int64(h[1])<<16|int64(h[2])<<8|int64(h[3]))&0x3fffffff + 1
+}
